@@ -500,7 +500,7 @@ func (r *runner) onTake(it item) {
 					score = 2
 				}
 			}
-			if score > best {
+			if score >= best { // equal: the later request (an earlier one with the same tag was flushed)
 				hit, best = q, score
 			}
 		}
